@@ -296,16 +296,30 @@ func variants() []variant {
 	})
 	// ---- finality ----
 	lock := func(name string, f func(c *ctx, b *reftx.Block) (lock uint32, seq uint32)) {
-		t := tag()
-		vs = append(vs, variant{name: name, need: coins, build: func(c *ctx) *reftx.Block {
-			s := c.spec(t)
-			tx := sp([]OP{c.p.Named["M1"]}, []reftx.Out{o1(5e8)})
-			s.Txs = []*reftx.Tx{tx}
-			b := minichain.Build(s)
-			tx.LockTime, tx.In[0].Sequence = f(c, b)
-			minichain.Seal(b)
-			return b
-		}})
+		// the transaction under test alone, and as the first / the middle one of three (the per-
+		// transaction checks run concurrently: each position must be judged on its own transaction)
+		for pos, suffix := range []string{"", "-then-two-final-txs", "-between-two-final-txs"} {
+			t := tag()
+			pos := pos
+			vs = append(vs, variant{name: name + suffix, need: coins, build: func(c *ctx) *reftx.Block {
+				s := c.spec(t)
+				tx := sp([]OP{c.p.Named["M1"]}, []reftx.Out{o1(5e8)})
+				f2 := sp([]OP{c.p.Named["M2"]}, []reftx.Out{o1(5e8)})
+				f3 := sp([]OP{c.p.Named["M3"]}, []reftx.Out{o1(5e8)})
+				switch pos {
+				case 0:
+					s.Txs = []*reftx.Tx{tx}
+				case 1:
+					s.Txs = []*reftx.Tx{tx, f2, f3}
+				case 2:
+					s.Txs = []*reftx.Tx{f2, tx, f3}
+				}
+				b := minichain.Build(s)
+				tx.LockTime, tx.In[0].Sequence = f(c, b)
+				minichain.Seal(b)
+				return b
+			}})
+		}
 	}
 	lock("lock-height-minus-1", func(c *ctx, b *reftx.Block) (uint32, uint32) { return c.height - 1, 0 })
 	lock("lock-height", func(c *ctx, b *reftx.Block) (uint32, uint32) { return c.height, 0 })
